@@ -149,6 +149,13 @@ def main():
     if tier == "thorough" and not a.no_mutants:
         import mutants as mu
         mutants = mu.run(prop, a.repo)
+        # the other half: behaviour-preserving refactors must not alarm
+        import benign as be
+        b = be.run([prop])
+        mutants["benign"] = {"clean": len(b["clean"]), "skipped": b["skipped"], "false_alarms": b["false_alarms"]}
+        for fa_ in b["false_alarms"]:
+            mutants["regressions"].append("false alarm on benign refactor %s" % fa_["patch"])
+        engine.REPO_DIR = a.repo
 
     merged = merge(obs)
     known = [k for k in load_known() if k["property"] == prop and k["status"] == "known"]
